@@ -15,6 +15,7 @@ use palette::white_point::D65;
 use palette::{Alpha, Clamp, ClampAssign, FromColor, IsWithinBounds};
 use palette::{Hsl, Hsluv, Hsv, Hwb, Lab, Lch, Lchuv, LinSrgb, Luv, Okhsl, Okhsv, Okhwb, Oklab, Oklch, Srgb, Xyz, Yxy};
 use palette::luma::{LinLuma, SrgbLuma};
+use palette::lms::{BradfordLms, VonKriesLms};
 use pvh::*;
 use serde_json::{json, Value};
 use std::marker::PhantomData;
@@ -97,6 +98,8 @@ type NHsv = Hsv<palette::encoding::Srgb, T>;
 type NHwb = Hwb<palette::encoding::Srgb, T>;
 type NLinLuma = LinLuma<D65, T>;
 type NSrgbLuma = SrgbLuma<T>;
+type NLmsVk = VonKriesLms<D65, T>;
+type NLmsBfd = BradfordLms<D65, T>;
 
 node3!(NXyz, "xyz", x, y, z, [mm!(NXyz, min_x, max_x), mm!(NXyz, min_y, max_y), mm!(NXyz, min_z, max_z)]);
 node3!(NYxy, "yxy", x, y, luma, [mm!(NYxy, min_x, max_x), mm!(NYxy, min_y, max_y), mm!(NYxy, min_luma, max_luma)]);
@@ -117,6 +120,8 @@ node_hue_first!(NHsv, "hsv", saturation, value, [FREE, mm!(NHsv, min_saturation,
 node_hue_first!(NHwb, "hwb", whiteness, blackness, [FREE, mm!(NHwb, min_whiteness, max_whiteness), mm!(NHwb, min_blackness, max_blackness)]);
 node1!(NLinLuma, "linluma", luma, [mm!(NLinLuma, min_luma, max_luma)]);
 node1!(NSrgbLuma, "srgbluma", luma, [mm!(NSrgbLuma, min_luma, max_luma)]);
+node3!(NLmsVk, "lmsvk", long, medium, short, [mn!(NLmsVk, min_long), mn!(NLmsVk, min_medium), mn!(NLmsVk, min_short)]);
+node3!(NLmsBfd, "lmsbfd", long, medium, short, [mn!(NLmsBfd, min_long), mn!(NLmsBfd, min_medium), mn!(NLmsBfd, min_short)]);
 
 #[derive(Clone, Copy)]
 pub struct Out { pub v: V, pub ok: bool }
@@ -212,8 +217,8 @@ macro_rules! universe {
     };
 }
 
-universe!([NXyz, NYxy, NLab, NLch, NLuv, NLchuv, NHsluv, NOklab, NOklch, NOkhsl, NOkhsv, NOkhwb, NLinSrgb, NSrgb, NHsl, NHsv, NHwb, NLinLuma, NSrgbLuma];
-          [NXyz, NYxy, NLab, NLch, NLuv, NLchuv, NHsluv, NOklab, NOklch, NOkhsl, NOkhsv, NOkhwb, NLinSrgb, NSrgb, NHsl, NHsv, NHwb, NLinLuma, NSrgbLuma]);
+universe!([NXyz, NYxy, NLab, NLch, NLuv, NLchuv, NHsluv, NOklab, NOklch, NOkhsl, NOkhsv, NOkhwb, NLinSrgb, NSrgb, NHsl, NHsv, NHwb, NLinLuma, NSrgbLuma, NLmsVk, NLmsBfd];
+          [NXyz, NYxy, NLab, NLch, NLuv, NLchuv, NHsluv, NOklab, NOklch, NOkhsl, NOkhsv, NOkhwb, NLinSrgb, NSrgb, NHsl, NHsv, NHwb, NLinLuma, NSrgbLuma, NLmsVk, NLmsBfd]);
 
 fn lohi(n: &NodeInfo, alpha: bool) -> (Value, Value) {
     let mut lo: Vec<Value> = (n.bounds)().iter().map(|(lo, _)| match lo { Some(x) => x.ex(), None => json!([]) }).collect();
